@@ -283,7 +283,8 @@ fn format_number_js(n: f64) -> String {
             "-Infinity".to_string()
         }
     } else {
-        format!("{}", n)
+        // The one default number -> string conversion (notation thresholds 1e21 / 1e-6)
+        crate::value::number_to_string(n)
     }
 }
 
@@ -381,7 +382,6 @@ pub fn number_to_precision(
     // Parse and reformat to match JS behavior
     let parts: Vec<&str> = result.split('e').collect();
     if let [mantissa_str, exp_str] = parts.as_slice() {
-        let mantissa = mantissa_str.parse::<f64>().unwrap_or(0.0);
         let exp: i32 = exp_str.parse().unwrap_or(0);
 
         // If exponent is small enough, use fixed notation
@@ -405,12 +405,13 @@ pub fn number_to_precision(
         // Use exponential notation
         let exp_sign = if exp >= 0 { "+" } else { "" };
         return Ok(Guarded::unguarded(JsValue::String(JsString::from(
-            format!("{}e{}{}", mantissa, exp_sign, exp),
+            // the digits as rounded above, trailing zeros included ("1.00e+5")
+            format!("{}e{}{}", mantissa_str, exp_sign, exp),
         ))));
     }
 
     Ok(Guarded::unguarded(JsValue::String(JsString::from(
-        format!("{}", n),
+        format_number_js(n),
     ))))
 }
 
